@@ -586,13 +586,23 @@ func (e *Engine) split(st *State, c *callCtx, s, sep *Term, n int) bool {
 		unsup("strings.Split with symbolic or empty separator")
 	}
 	// structural split of a concatenation whose symbolic operands provably contain no separator
-	if s.parts != nil && n < 0 {
+	if s.parts != nil && n != 0 {
 		ok := true
 		var pieces [][]*Term
 		cur := []*Term{}
-		for _, p := range s.parts {
+		for pi, p := range s.parts {
+			if n > 0 && len(pieces) == n-1 {
+				// the last piece takes the rest verbatim
+				cur = append(cur, s.parts[pi:]...)
+				break
+			}
 			if p.K {
 				segs := strings.Split(p.Str, sep.Str)
+				if n > 0 && len(pieces)+len(segs) > n {
+					// keep only as many separators as pieces are still allowed
+					keep := n - len(pieces)
+					segs = append(segs[:keep-1], strings.Join(segs[keep-1:], sep.Str))
+				}
 				for i, sg := range segs {
 					if i > 0 {
 						pieces = append(pieces, cur)
